@@ -44,6 +44,12 @@ def effective(I, stores, total):
     return out, ck
 
 def run(ctx, rep):
+    _run(ctx, rep)
+    if ctx.tier == 'thorough':
+        import witness
+        witness.check(rep, ctx, ['C13DataPrivate'])
+
+def _run(ctx, rep):
     f = ctx.facts
     ty = 'sdt::Sdt'
     fs = fns_of(f, ty)
